@@ -11,13 +11,16 @@ Proof. vm_compute. reflexivity. Qed.
 
 Theorem inventory_covered :
   forall s, In s sites ->
-    exists r, site_row s = Some r /\ gs_track s = r_track r /\
-      (class_await (r_class r) = AwWaitGroup -> gs_track s <> "untracked").
+    exists r, site_row s = Some r /\ gs_track s = r_track r /\ gs_guard s = r_guard r /\
+      (class_await (r_class r) = AwWaitGroup -> gs_track s <> "untracked") /\
+      (class_guarded (r_class r) = true -> gs_guard s <> "").
 Proof.
   intros s Hs. pose proof inventory_covered_b as H. rewrite forallb_forall in H. specialize (H s Hs).
   unfold site_covered in H. destruct (site_row s) as [r|]; [|discriminate]. exists r. split; [reflexivity|].
-  unfold track_ok in H. apply andb_true_iff in H. destruct H as [H1 H2]. apply String.eqb_eq in H1. split; [exact H1|].
-  intro A. rewrite A in H2. apply negb_true_iff in H2. intro E. apply String.eqb_neq in H2. contradiction.
+  unfold track_ok in H. repeat (apply andb_true_iff in H; destruct H as [H ?]).
+  apply String.eqb_eq in H. split; [exact H|]. split; [apply String.eqb_eq; assumption|]. split.
+  - intro A. match goal with X : match class_await (r_class r) with _ => _ end = true |- _ => rewrite A in X; apply negb_true_iff in X; apply String.eqb_neq in X; exact X end.
+  - intro A. match goal with X : (if class_guarded (r_class r) then _ else _) = true |- _ => rewrite A in X; apply negb_true_iff in X; apply String.eqb_neq in X; exact X end.
 Qed.
 
 (* every class is awaited in one of the accepted ways, and an awaiting parent is itself awaited by Close
